@@ -11,4 +11,5 @@ import MoreExec.Props.C07
 #print axioms MoreExec.Throttle.C07_admission_is_block_pop
 #print axioms MoreExec.BlockProto.C07_blocked_only_while_full
 #print axioms MoreExec.BlockProto.C07_room_wakes_all
+#print axioms MoreExec.BlockProto.C07_shutdown_releases_blocked
 #print axioms MoreExec.Throttle.C07_admission_kernel
